@@ -80,6 +80,22 @@ def adminOp (op : String) (a : List Int) : Option String :=
       | some o, some es => some (showResB ((ixConfigureBank c flags.toNat es mi mm o).map fun (c', f') => s!"{showCfg c'} {f'}"))
       | _, _ => some "bad-args"
     | _ => some "bad-args"
+  | "adm.ixir" =>
+    -- <cfg 33> flags <opt 56> (only the interest part of the option record is used)
+    match parseCfg a with
+    | some (c, flags :: rest) =>
+      match parseOpt rest with
+      | some o =>
+        match o.ir with
+        | some io => some (showResB ((ixConfigureInterestOnly c flags.toNat io).map showCfg))
+        | none => some "bad-args"
+      | none => some "bad-args"
+    | _ => some "bad-args"
+  | "adm.ixlim" =>
+    match parseCfg a with
+    | some (c, [flags, pd, d, pb, b, pi, i]) =>
+      some (s!"ok {showCfg (ixConfigureLimitsOnly c flags.toNat (optI pd d) (optI pb b) (optI pi i))}")
+    | _ => some "bad-args"
   | "adm.u32basis" =>
     match a with
     | [v] => some (toString (u32ToBasis v))
